@@ -41,6 +41,13 @@ def mutants(pid):
             code = text.split('//')[0]
             if not code.strip() or code.strip().startswith(('#', '*', 'template', 'assert', 'using', 'typedef')):
                 continue
+            if os.environ.get('OPSET') == 'del':
+                # statement deletion: a whole simple statement (assignment / call) on one line
+                st_ = code.strip()
+                if st_.endswith(';') and not st_.startswith(('return', 'break', 'continue', 'const ', 'double ', 'float ', 'int ', 'size_t ', 'auto ', 'Scalar ', 'typename', 'Eigen::', 'std::', 'bool ', 'long ', '}')) \
+                        and ('=' in st_ or '(' in st_) and st_.count('(') == st_.count(')') and not re.match(r'^[\w:<>,\s\*&]+\s+\w+(\s*=.*)?;$', st_):
+                    res.append((f, ln, text.strip()[:90], code[:len(code) - len(code.lstrip())] + ';'))
+                continue
             for (pat, rep) in OPS:
                 mm = re.search(pat, code)
                 if mm and '<<' not in code[:mm.start() + 2][-3:] and not re.search(r'\b(template|static_cast|const_cast|vector|Matrix|std::|include)\b[^;]*$', code[:mm.start()]) or (mm and pat in (r'\bsin\(', r'\bcos\(')):
